@@ -1151,41 +1151,34 @@ class DataFrameSchema(Generic[TDataObject], BaseSchema):
                 f"Keys {level_not_in_index} not found in schema columns!"
             )
 
-        new_index = (
-            None
-            if not level_temp or isinstance(new_schema.index, Index)
-            else new_schema.index.remove_columns(level_temp)
-        )
-        new_index = (
-            new_index
-            if new_index is None
-            else (
-                Index(
-                    dtype=new_index.columns[list(new_index.columns)[0]].dtype,
-                    checks=new_index.columns[
-                        list(new_index.columns)[0]
-                    ].checks,
-                    nullable=new_index.columns[
-                        list(new_index.columns)[0]
-                    ].nullable,
-                    unique=new_index.columns[
-                        list(new_index.columns)[0]
-                    ].unique,
-                    coerce=new_index.columns[
-                        list(new_index.columns)[0]
-                    ].coerce,
-                    name=new_index.columns[list(new_index.columns)[0]].name,
+        new_index: Any = None
+        if level_temp and not isinstance(new_schema.index, Index):
+            # rebuild the index from the levels that stay, so that the list of
+            # levels of a MultiIndex and its columns agree and every property
+            # of the remaining level(s) is kept
+            kept_levels = [
+                index
+                for index in new_schema.index.indexes
+                if index.name not in level_temp
+            ]
+            if len(kept_levels) == 1:
+                new_index = kept_levels[0]
+            elif kept_levels:
+                kept_names = [index.name for index in kept_levels]
+                multiindex = new_schema.index
+                unique = multiindex.unique
+                if isinstance(unique, list):
+                    unique = [x for x in unique if x in kept_names] or None
+                elif unique is not None and unique not in kept_names:
+                    unique = None
+                new_index = MultiIndex(
+                    indexes=kept_levels,
+                    coerce=multiindex._coerce,  # pylint: disable=protected-access
+                    strict=multiindex.strict,
+                    name=multiindex.name,
+                    ordered=multiindex.ordered,
+                    unique=unique,
                 )
-                if (len(list(new_index.columns)) == 1)
-                and (new_index is not None)
-                else (
-                    None
-                    if (len(list(new_index.columns)) == 0)
-                    and (new_index is not None)
-                    else new_index
-                )
-            )
-        )
 
         if not drop:
             additional_columns: Dict[str, Any] = (
